@@ -135,7 +135,8 @@ func New(config ...Config) fiber.Handler {
 		// Cache Entry found
 		if e != nil {
 			// Invalidate cache if requested
-			if cfg.CacheInvalidator != nil && cfg.CacheInvalidator(c) {
+			// (an external storage hands out an empty item for an unknown key: there is nothing to invalidate then)
+			if cfg.CacheInvalidator != nil && e.exp != 0 && cfg.CacheInvalidator(c) {
 				e.exp = ts - 1
 			}
 
